@@ -1,18 +1,21 @@
 (* LifeProofs.v — theorems for C20. *)
 From VP Require Import Base Life.
 
-Definition LInv (s : lstate) : Prop := l_loops s = (if l_started s then 1 else 0)%nat.
+(* one loop iff started; and while a loop runs no result of an earlier run is waiting to be
+   collected (an accepted Start drops them) *)
+Definition LInv (s : lstate) : Prop :=
+  l_loops s = (if l_started s then 1 else 0)%nat /\ (l_started s = true -> l_waitq s = []).
 
-Lemma LInv_l0 : LInv l0. Proof. reflexivity. Qed.
+Lemma LInv_l0 : LInv l0. Proof. split; [reflexivity|discriminate]. Qed.
 
 Lemma LInv_step s o : LInv s -> LInv (fst (lstep true s o)).
 Proof.
-  unfold LInv. intros H. destruct s as [st lp wq]. cbn in *. destruct o as [oc| | | |]; cbn.
-  - destruct st; cbn; auto. destruct oc; cbn; auto; try congruence.
-  - destruct lp as [|n]; cbn; auto. destruct st; [injection H as ->; reflexivity|discriminate].
-  - destruct lp as [|n]; cbn; auto. destruct st; [injection H as ->; reflexivity|discriminate].
-  - exact H.
-  - destruct wq; cbn; exact H.
+  unfold LInv. intros [H Hq]. destruct s as [st lp wq]. cbn in *. destruct o as [oc| | | |]; cbn.
+  - destruct st; cbn; auto. destruct oc; cbn; auto; split; auto; congruence.
+  - destruct lp as [|n]; cbn; auto. destruct st; [injection H as ->; split; [reflexivity|discriminate]|discriminate].
+  - destruct lp as [|n]; cbn; auto. destruct st; [injection H as ->; split; [reflexivity|discriminate]|discriminate].
+  - auto.
+  - destruct wq; cbn; auto. split; auto. intros Hs. specialize (Hq Hs). discriminate.
 Qed.
 
 (* exactly one periodic loop: for every sequence of starts, stops, waits, ticks and pool failures
@@ -21,45 +24,51 @@ Theorem one_loop ops : LInv (lrun true l0 ops) /\ (l_loops (lrun true l0 ops) <=
 Proof.
   assert (H : forall s, LInv s -> LInv (lrun true s ops)).
   { induction ops as [|o r IH]; intros s Hs; cbn; auto. apply IH. now apply LInv_step. }
-  specialize (H l0 LInv_l0). split; auto. rewrite H. destruct (l_started _); lia.
+  specialize (H l0 LInv_l0). split; auto. destruct H as [H _]. rewrite H. destruct (l_started _); lia.
 Qed.
 
 (* starting again while running is refused and changes nothing *)
 Theorem double_start s oc : LInv s -> l_started s = true -> lstep true s (LStart oc) = (s, RAlreadyStarted).
 Proof. intros _ H. cbn. now rewrite H. Qed.
 
-(* a start that fails at the pool leaves nothing running *)
+(* a start that fails at the pool leaves nothing running: no loop, not started, and the next
+   start is judged like the first *)
 Theorem failed_start s oc : oc <> SOk -> l_started s = false ->
-  fst (lstep true s (LStart oc)) = s /\ snd (lstep true s (LStart oc)) = RStartErr.
-Proof. intros Hoc Hs. cbn. rewrite Hs. destruct oc; [congruence| |]; auto. Qed.
+  let s1 := fst (lstep true s (LStart oc)) in
+  l_loops s1 = l_loops s /\ l_started s1 = false /\ snd (lstep true s (LStart oc)) = RStartErr /\
+  snd (lstep true s1 (LStart SOk)) = RStartOk.
+Proof.
+  intros Hoc Hs. destruct s as [st lp wq]. cbn in Hs. subst st.
+  destruct oc; [congruence| |]; cbn; auto.
+Qed.
 
 (* stopping ends the loop, so that waiting returns, after which it can be started again *)
 Theorem stop_wait_restart s :
-  LInv s -> l_started s = true -> l_waitq s = [] ->
+  LInv s -> l_started s = true ->
   let s1 := fst (lstep true s LStop) in
   let '(s2, w) := lstep true s1 LWait in
   l_loops s1 = 0%nat /\ w = RWait WNil /\ snd (lstep true s2 (LStart SOk)) = RStartOk /\
   l_loops (fst (lstep true s2 (LStart SOk))) = 1%nat.
 Proof.
-  unfold LInv. intros H Hs Hq. cbn. rewrite Hs in H. rewrite H, Hq. cbn. auto.
+  unfold LInv. intros [H Hq0] Hs. pose proof (Hq0 Hs) as Hq. cbn. rewrite Hs in H. rewrite H, Hq. cbn. auto.
 Qed.
 
 (* a pool failure at a keep-alive ends the loop: Wait returns the error, and the agent can be
    started again *)
 Theorem failed_keepalive_restart s :
-  LInv s -> l_started s = true -> l_waitq s = [] ->
+  LInv s -> l_started s = true ->
   let s1 := fst (lstep true s LTickFail) in
   let '(s2, w) := lstep true s1 LWait in
   l_loops s1 = 0%nat /\ w = RWait WErr /\ snd (lstep true s2 (LStart SOk)) = RStartOk.
 Proof.
-  unfold LInv. intros H Hs Hq. cbn. rewrite Hs in H. rewrite H, Hq. cbn. auto.
+  unfold LInv. intros [H Hq0] Hs. pose proof (Hq0 Hs) as Hq. cbn. rewrite Hs in H. rewrite H, Hq. cbn. auto.
 Qed.
 
 (* cadence: while running, each interval sends exactly one keep-alive *)
 Theorem cadence ops :
   let s := lrun true l0 ops in
   snd (lstep true s LTick) = RTick (if l_started s then 1 else 0)%nat.
-Proof. cbn. destruct (one_loop ops) as [H _]. unfold LInv in H. now rewrite H. Qed.
+Proof. cbn. destruct (one_loop ops) as [[H _] _]. now rewrite H. Qed.
 
 (* without the flag (the pinned tree) a second Start runs a second loop *)
 Theorem no_flag_refuted :
@@ -71,3 +80,25 @@ Proof. vm_compute. auto. Qed.
 (* the command line accepts an interval only if it is shorter than the expiry window *)
 Theorem interval_below_expiry mn mx d : interval_ok mn mx d = true -> d < mx.
 Proof. unfold interval_ok. intros H. apply andb_true_iff in H as [_ H]. now apply Z.ltb_lt. Qed.
+
+(* the case the hypothesis "no uncollected result" used to hide: runs that ended on a failing
+   keep-alive and were never waited for, then Stop, Wait, Start — for every number of such runs,
+   Wait returns the result of the run that was stopped and the agent starts again *)
+Fixpoint failed_runs (n : nat) : list lop :=
+  match n with O => [] | S k => LStart SOk :: LTickFail :: failed_runs k end.
+Theorem restart_after_uncollected_failures n :
+  let s := lrun true l0 (failed_runs n ++ [LStart SOk]) in
+  let s1 := fst (lstep true s LStop) in
+  let '(s2, w) := lstep true s1 LWait in
+  l_started s = true /\ w = RWait WNil /\ snd (lstep true s2 (LStart SOk)) = RStartOk.
+Proof.
+  assert (Hgen : forall n s0, l_started s0 = false -> l_loops s0 = 0%nat ->
+            let s := lrun true s0 (failed_runs n ++ [LStart SOk]) in
+            l_started s = true /\ l_loops s = 1%nat /\ l_waitq s = []).
+  { induction n0 as [|k IH]; intros s0 Hs Hl; destruct s0 as [st lp wq]; cbn in Hs, Hl; subst st lp; cbn.
+    - auto.
+    - apply IH; reflexivity. }
+  destruct (Hgen n l0 eq_refl eq_refl) as (Hs & Hl & Hq). cbn zeta.
+  set (s := lrun true l0 (failed_runs n ++ [LStart SOk])) in *.
+  cbn. rewrite Hl, Hq. cbn. auto.
+Qed.
